@@ -23,7 +23,7 @@ CHECKS = {
         engine='kani-contracts', category='model_checking',
         technique='allocator put under contract: std::alloc entry points stubbed with precondition `!STEADY`; bounded Kani harnesses over a stated API surface',
         text='BOUNDED: after construction, the listed operations of the sample, frame, borrowed-slice, ring-buffer, peak, RMS, envelope, interpolation, window and signal APIs never reach the allocator (allocation or reallocation) on any path for symbolic inputs; ring buffers are checked from every valid (start,len) state so one call covers every history of those operations.',
-        note='Surface stated in the evidence; frees are not intercepted; bus, graph processor, by_rc, boxed conversions, libm-based oscillators not covered. Model checking over short call sequences, not proof.',
+        note='Surface stated in the evidence (it includes the stock graph nodes Sum / SumBuffers / Pass / BoxedNode called directly); frees are not intercepted; bus, graph TRAVERSAL (Processor, GraphNode: petgraph), by_rc, boxed conversions, libm-based oscillators not covered. Model checking over short call sequences, not proof.',
     ),
     'C16': dict(
         engine='kani-contracts', category='model_checking',
@@ -47,7 +47,7 @@ CHECKS = {
         engine='kani-contracts', category='proof',
         technique='Kani bit-precise full-domain harnesses on the no_std build of dasp_sample (exact mantissa/exponent comparison); bounded Kani harnesses on the real Rms over dyadic samples (exact arithmetic) for the window clause',
         text='PARTIAL: decides the no_std square-root clause of C11: for every finite normal x >= 0 the approximation reached through FloatSample::sample_sqrt (dasp_sample built with default-features = false) satisfies 0.93^2 x <= r^2 <= 1.07^2 x, for f32 and f64, is at most 1e-18 for zero and subnormal input and NaN for negative input. BOUNDED part: for window lengths 1..3, histories of up to N+2 frames with an optional reset, also starting from a non-zero window, the output EQUALS the root of the mean of the last N squares (earlier ones counted as zero) for dyadic samples whose squares and sums are exact in f32.',
-        note='Not claimed: unbounded window length / history (no Verus unit rms), rigorous float error bound of the running sum, NaN-freedom in float arithmetic. -0.0 excluded (unreachable from a mean of squares).',
+        note='Not claimed: unbounded window length / history (no Verus unit rms), rigorous float error bound of the running sum; non-negativity / NaN-freedom only on the bounded i16 harness (window 2, every history x1, x2, 0, 0). -0.0 excluded (unreachable from a mean of squares).',
     ),
     'C19': dict(
         engine='kani-contracts', category='proof',
